@@ -201,6 +201,8 @@ class Program:
                     inline.inline_unknown(trees, self.unknown_functions, self.norm_report)
                 for _round in range(3):
                     n1 = len(self.norm_report)
+                    # displays that only now stand at the call sites (a helper that built the tuple was inlined)
+                    restructure.undo(trees, self.unknown_functions, self.norm_report)
                     inline.inline_nested_unknown(trees, self.norm_report)
                     unextract.inline_constants(trees, self.norm_report)
                     unextract.inline_class_constants(trees, self.norm_report)
